@@ -67,6 +67,7 @@ type hMeltQ struct {
 	amount, fee uint64
 	msat   uint64
 	internal bool
+	forged bool // foreign invoice carrying the payment hash of one of the mint's own invoices
 	mpp    bool
 	inputs []int64 // secrets locked by an accepted melt
 	state  int     // as last reported
@@ -931,6 +932,14 @@ func (h *Hist) OpMeltQuote(m mode, msat uint64, own *hMintQ, mppPart uint64, uni
 	switch {
 	case again != nil:
 		req, hash, q.reqH, q.hashH, msat = again.req, again.hash, again.reqH, again.hashH, again.msat
+	case own != nil && msat != 0:
+		// a foreign invoice that carries the payment hash of the mint's own invoice: not the same invoice, so nothing
+		// the mint may settle internally
+		var err error
+		req, err = forgedInvoiceMsat(own.hash, msat)
+		must(err)
+		hash, q.reqH, q.hashH = own.hash, h.fresh(), own.hashH
+		q.forged = true
 	case own != nil:
 		req, hash, q.reqH, q.hashH, msat = own.req, own.hash, own.hashH, own.hashH, own.amount*1000
 		q.internal = true
@@ -1010,7 +1019,30 @@ func (h *Hist) notePaid(q *hMeltQ, op S) {
 		burned += s.amount
 	}
 	h.consume(specs, "melt", op)
-	if q.internal {
+	internal := q.internal
+	if q.forged {
+		// a foreign invoice with the hash of an own invoice: either the backend was asked to pay it (accounted below like any
+		// outside invoice), or the mint settled it against its own mint quote; the latter is a payment of that quote only if
+		// the melt burned at least the quote's amount (plus input fees)
+		paidOutside := false
+		for _, c := range h.tm.LN.PayCalls {
+			if c.Request == q.req {
+				paidOutside = true
+			}
+		}
+		if !paidOutside {
+			h.stats["forged-hash melt settled internally"]++
+			h.intIn += q.amount
+			for _, mq := range h.mq {
+				if mq.hash == q.hash && burned >= mq.amount+h.feesFor(specs) {
+					mq.settlements++
+				}
+			}
+			return
+		}
+		h.stats["forged-hash melt paid over Lightning"]++
+	}
+	if internal {
 		h.intIn += q.amount
 		for _, mq := range h.mq {
 			if mq.hash == q.hash {
@@ -1020,7 +1052,7 @@ func (h *Hist) notePaid(q *hMeltQ, op S) {
 	} else {
 		// what the backend was allowed to spend: the amount it was asked to pay plus the fee limit
 		for _, c := range h.tm.LN.PayCalls {
-			if c.Hash == q.hash {
+			if c.Hash == q.hash && (!q.forged || c.Request == q.req) {
 				cost := (c.AmountMsat+999)/1000 + c.MaxFee
 				h.paidOut += cost
 				if c.MaxFee > q.fee {
